@@ -1025,7 +1025,7 @@ where
     V: RecognizerReadable,
 {
     type Rec = HashMapRecognizer<K::Rec, V::Rec>;
-    type AttrRec = HashMapRecognizer<K::Rec, V::Rec>;
+    type AttrRec = CollaspsibleRec<HashMapRecognizer<K::Rec, V::Rec>>;
     type BodyRec = HashMapRecognizer<K::Rec, V::Rec>;
 
     fn make_recognizer() -> Self::Rec {
@@ -1033,7 +1033,13 @@ where
     }
 
     fn make_attr_recognizer() -> Self::AttrRec {
-        HashMapRecognizer::new_attr(K::make_recognizer(), V::make_recognizer())
+        FirstOf::new(
+            HashMapRecognizer::new_attr(K::make_recognizer(), V::make_recognizer()),
+            SimpleAttrBody::new(HashMapRecognizer::new(
+                K::make_recognizer(),
+                V::make_recognizer(),
+            )),
+        )
     }
 
     fn make_body_recognizer() -> Self::BodyRec {
